@@ -27,7 +27,9 @@
 (*     instructions that were written and produces the same rows as the    *)
 (*     abstract machine), AddrFits (generator sanity), HeaderGeometry      *)
 (*     (unit_length/header_length re-read from the bytes delimit exactly   *)
-(*     the program), TablesRoundTrip (v2-4 string lists re-read).          *)
+(*     the program), TablesRoundTrip (v2-4 string lists and v5 entry-      *)
+(*     format tables re-read from the bytes by a reader written from the   *)
+(*     same sections).                                                     *)
 (*                                                                         *)
 (* Not asserted (the standard does not fix it / outside well-formedness):  *)
 (*   - address overflow beyond the address size, negative line numbers     *)
@@ -40,6 +42,26 @@
 (*   - entries with state None (command/args are display data).            *)
 (* Every emitted program is closed with DW_LNE_end_sequence (6.2.5.3:      *)
 (* every sequence must end with one).                                      *)
+(*                                                                         *)
+(* Case classes (spec-computed tags) that isolate deviations seen on the   *)
+(* unchanged tree; the expectations below are the standard's in all cases: *)
+(*   rows.is_stmt:end_sequence  the row appended by DW_LNE_end_sequence    *)
+(*       carries the current is_stmt (6.2.5.3: "appends a row ... using    *)
+(*       the current values of the state-machine registers");              *)
+(*   rows.address:max_ops>1     header with maximum_operations_per_        *)
+(*       instruction > 1 and a program containing advance_pc /             *)
+(*       const_add_pc (operation advance, 6.2.5.1) or fixed_advance_pc /   *)
+(*       set_address (op_index := 0);                                      *)
+(*   decode:unknown_std         a standard opcode >= 13 below opcode_base, *)
+(*       skipped through standard_opcode_lengths (6.2.4 item 13);          *)
+(*   extent.start:header_gap    header_length larger than the known        *)
+(*       fields: the program starts where header_length says (6.2.4        *)
+(*       item 5).                                                          *)
+(* Candidate repairs: fixes/C05-*.patch.  With all four applied the check  *)
+(* is green on every configuration; no false alarm had to be removed.      *)
+(*                                                                         *)
+(* .debug_abbrev is the fixed 24-byte literal AbbrevSec (three one-entry   *)
+(* tables, documented there); .debug_info is computed by CUEnc.            *)
 (***************************************************************************)
 EXTENDS Bytes, TLC, Json, CSV, IOUtils
 
@@ -92,6 +114,15 @@ SimHeaders ==
      /\ (hh.v = 2 => (~hh.f64 /\ hh.ob <= 10))
      /\ (hh.v < 4 => hh.mo = 1)}
 
+\* sweep (thorough): every combination of the arithmetic parameters x every single instruction; the format
+\* parameters ride along (derived, so that all of them occur)
+SweepHeaders ==
+  {hh \in {Hd("s", v, v >= 3 /\ dis, IF mi = 1 THEN 8 ELSE 4, (mo = 1) = dis, ob, lb, lr, mi, mo, dis) :
+              v \in 2..5, ob \in {1, 4, 10, 13, 14, 255}, lb \in {-128, -5, 0, 3}, lr \in {1, 3, 9, 14, 255},
+              mi \in {1, 4}, mo \in {1, 4}, dis \in BOOLEAN} :
+     /\ (hh.v = 2 => (~hh.f64 /\ hh.ob <= 10))
+     /\ (hh.v < 4 => hh.mo = 1)}
+
 OSz(hh) == IF hh.f64 THEN 8 ELSE 4
 
 \* standard_opcode_lengths (DWARF5 6.2.4 item 13, 6.2.5.2): operands of opcodes 1..12;
@@ -120,6 +151,11 @@ UlebStd == {"advance_pc", "set_file", "set_column", "set_isa"}
 
 RECURSIVE FlatMap(_, _)
 FlatMap(F(_), s) == IF s = <<>> THEN <<>> ELSE F(Head(s)) \o FlatMap(F, Tail(s))
+
+\* balanced concatenation (a linear recursion over a 130-entry table overflows the Java stack)
+RECURSIVE FlatB(_)
+FlatB(ss) == IF Len(ss) = 0 THEN <<>> ELSE IF Len(ss) = 1 THEN ss[1]
+             ELSE LET m == Len(ss) \div 2 IN FlatB(SubSeq(ss, 1, m)) \o FlatB(SubSeq(ss, m + 1, Len(ss)))
 
 Ext(x, body) == <<0>> \o UlebPadded(Len(body), x.pad) \o body
 
@@ -219,40 +255,53 @@ Closed(p) == IF p = <<>> \/ p[Len(p)].k = "end_sequence" THEN p ELSE Append(p, E
 \* a LEB operand is looked for in a 10-byte window (operands written here are <= 5 bytes; the window only
 \* bounds the cost of LebDec, which scans its whole argument)
 Rest(bs, pos) == SubSeq(bs, pos + 1, IF pos + 10 < Len(bs) THEN pos + 10 ELSE Len(bs))
-UlebAt(bs, pos) == LET d == LebDec(Rest(bs, pos), FALSE)   v == GroupsNat(d.val.g) IN
-                   [v |-> v, used |-> d.used, pad |-> d.used - Len(UlebOfNat(v))]
-SlebAt(bs, pos) == LET d == LebDec(Rest(bs, pos), TRUE)   v == GroupsInt(d.val.g, TRUE) IN
-                   [v |-> v, used |-> d.used, pad |-> d.used - Len(SlebOfInt(v))]
+\* values are Small: a LEB operand of more than 4 groups is flagged `big` (never written by the writer;
+\* the trace specification skips such programs) unless the extra groups are padding
+UlebAt(bs, pos) == LET d == LebDec(Rest(bs, pos), FALSE)
+                       big == d.used > 4 /\ \E i \in 5..d.used : d.val.g[i] # 0
+                       v == IF big \/ ~d.ok THEN 0 ELSE GroupsNat(SubSeq(d.val.g, 1, IF d.used > 4 THEN 4 ELSE d.used)) IN
+                   [v |-> v, used |-> d.used, pad |-> d.used - Len(UlebOfNat(v)), big |-> big \/ ~d.ok]
+SlebAt(bs, pos) == LET d == LebDec(Rest(bs, pos), TRUE)
+                       big == d.used > 4 \/ ~d.ok
+                       v == IF big THEN 0 ELSE GroupsInt(d.val.g, TRUE) IN
+                   [v |-> v, used |-> d.used, pad |-> d.used - Len(SlebOfInt(v)), big |-> big]
 \* n ULEB operands starting at pos: <<values, next pos>>
-RECURSIVE UlebsAt(_, _, _, _)
-UlebsAt(bs, pos, n, acc) == IF n = 0 THEN [vals |-> acc, next |-> pos]
-                            ELSE LET u == UlebAt(bs, pos) IN UlebsAt(bs, pos + u.used, n - 1, Append(acc, u.v))
+RECURSIVE UlebsAt(_, _, _, _, _)
+UlebsAt(bs, pos, n, acc, big) == IF n = 0 THEN [vals |-> acc, next |-> pos, big |-> big]
+                                 ELSE LET u == UlebAt(bs, pos) IN UlebsAt(bs, pos + u.used, n - 1, Append(acc, u.v), big \/ u.big)
+
+\* standard_opcode_lengths as the header declares them (a trace event carries the header's own array)
+LensOf(hh) == IF "lens" \in DOMAIN hh THEN hh.lens ELSE StdLens(hh)
 
 \* one fetch-decode step at 0-based offset pos: the instruction and the offset of the next one
 DecIns(hh, bs, pos) ==
   LET op == bs[pos + 1] IN
-  IF op >= hh.ob THEN [x |-> I1("special", op), next |-> pos + 1]
+  IF op >= hh.ob THEN [x |-> I1("special", op), next |-> pos + 1, big |-> FALSE]
   ELSE IF op = 0 THEN
     LET l == UlebAt(bs, pos + 1)
         b0 == pos + 1 + l.used            \* offset of the extended opcode byte
         ex == bs[b0 + 1]
+        du == UlebAt(bs, b0 + 1)
         x == CASE ex = 1 -> I("end_sequence", 0, l.pad, <<>>, <<>>)
                [] ex = 2 -> LET raw == Slice(bs, b0 + 2, l.v - 1) IN
                             I("set_address", 0, l.pad, DTrunc(IF hh.le THEN raw ELSE Rev(raw), 8), <<>>)
                [] ex = 3 /\ hh.v <= 4 ->
-                            LET nm == CStrAt(SubSeq(bs, 1, b0 + l.v), b0 + 1)   us == UlebsAt(bs, b0 + 1 + nm.used, 3, <<>>) IN
-                            I("define_file", 0, l.pad, nm.s, us.vals)
-               [] ex = 4 /\ hh.v >= 4 -> I("set_discriminator", UlebAt(bs, b0 + 1).v, l.pad, <<>>, <<>>)
+                            LET nm == CStrAt(SubSeq(bs, 1, b0 + l.v), b0 + 1)   us == UlebsAt(bs, b0 + 1 + nm.used, 3, <<>>, FALSE) IN
+                            I("define_file", 0, l.pad, nm.s, IF us.big THEN <<0, 0, 0>> ELSE us.vals)
+               [] ex = 4 /\ hh.v >= 4 -> I("set_discriminator", du.v, l.pad, <<>>, <<>>)
                [] OTHER -> I("unknown_ext", ex, l.pad, Slice(bs, b0 + 2, l.v - 1), <<>>)
-    IN [x |-> x, next |-> b0 + l.v]      \* 6.2.5.3: the length covers opcode + operands
+    IN [x |-> x, next |-> b0 + l.v,      \* 6.2.5.3: the length covers opcode + operands
+        big |-> l.big \/ l.v = 0 \/ (ex = 4 /\ hh.v >= 4 /\ du.big) \/ (ex = 2 /\ l.v - 1 > 8)]
   ELSE IF op <= 12 THEN
     LET k == StdName[op] IN
-    IF k \in NoOperandStd THEN [x |-> I0(k), next |-> pos + 1]
-    ELSE IF k \in UlebStd THEN LET u == UlebAt(bs, pos + 1) IN [x |-> I(k, u.v, u.pad, <<>>, <<>>), next |-> pos + 1 + u.used]
-    ELSE IF k = "advance_line" THEN LET u == SlebAt(bs, pos + 1) IN [x |-> I(k, u.v, u.pad, <<>>, <<>>), next |-> pos + 1 + u.used]
-    ELSE [x |-> I1(k, SmallDec(Slice(bs, pos + 2, 2), hh.le, FALSE)), next |-> pos + 3]      \* fixed_advance_pc: uhalf
-  ELSE LET us == UlebsAt(bs, pos + 1, StdLens(hh)[op], <<>>) IN
-       [x |-> I("unknown_std", op, 0, <<>>, us.vals), next |-> us.next]
+    IF k \in NoOperandStd THEN [x |-> I0(k), next |-> pos + 1, big |-> FALSE]
+    ELSE IF k \in UlebStd THEN LET u == UlebAt(bs, pos + 1) IN
+                               [x |-> I(k, u.v, u.pad, <<>>, <<>>), next |-> pos + 1 + u.used, big |-> u.big]
+    ELSE IF k = "advance_line" THEN LET u == SlebAt(bs, pos + 1) IN
+                                    [x |-> I(k, u.v, u.pad, <<>>, <<>>), next |-> pos + 1 + u.used, big |-> u.big]
+    ELSE [x |-> I1(k, SmallDec(Slice(bs, pos + 2, 2), hh.le, FALSE)), next |-> pos + 3, big |-> FALSE]      \* fixed_advance_pc: uhalf
+  ELSE LET us == UlebsAt(bs, pos + 1, LensOf(hh)[op], <<>>, FALSE) IN
+       [x |-> I("unknown_std", op, 0, <<>>, us.vals), next |-> us.next, big |-> us.big]
 
 \* run the byte machine over bs: instructions decoded, rows, final cursor
 RECURSIVE RunBytes(_, _, _, _, _, _)
@@ -307,15 +356,15 @@ EncVal(hh, form, v) ==
 \* v5 (6.2.4 items 14-21): format count (ubyte), (content type, form) ULEB pairs, count (ULEB), entries
 EncFmt(fmt) == <<Len(fmt)>> \o Flat([i \in 1..Len(fmt) |-> UlebOfNat(fmt[i][1]) \o UlebOfNat(fmt[i][2])])
 EncEntry(hh, fmt, e) == Flat([i \in 1..Len(fmt) |-> EncVal(hh, fmt[i][2], e[i])])
-EncEntries(hh, fmt, es) == UlebOfNat(Len(es)) \o Flat([i \in 1..Len(es) |-> EncEntry(hh, fmt, es[i])])
+EncEntries(hh, fmt, es) == UlebOfNat(Len(es)) \o FlatB([i \in 1..Len(es) |-> EncEntry(hh, fmt, es[i])])
 \* v2-v4 (DWARF4 6.2.4 items 11-12): NUL-terminated strings ended by an empty one; file entries
 \* (name, dir ULEB, mtime ULEB, length ULEB) ended by a 0 byte
 EncFile4(f) == f.name \o <<0>> \o UlebOfNat(f.dir) \o UlebOfNat(f.mtime) \o UlebOfNat(f.len)
 TabEnc(hh, t) ==
   IF hh.v >= 5
   THEN EncFmt(t.dfmt) \o EncEntries(hh, t.dfmt, t.dirs) \o EncFmt(t.ffmt) \o EncEntries(hh, t.ffmt, t.files)
-  ELSE Flat([i \in 1..Len(t.dirs) |-> t.dirs[i] \o <<0>>]) \o <<0>>
-       \o Flat([i \in 1..Len(t.files) |-> EncFile4(t.files[i])]) \o <<0>>
+  ELSE FlatB([i \in 1..Len(t.dirs) |-> t.dirs[i] \o <<0>>]) \o <<0>>
+       \o FlatB([i \in 1..Len(t.files) |-> EncFile4(t.files[i])]) \o <<0>>
 
 InitLen(hh, n) == IF hh.f64 THEN <<255, 255, 255, 255>> \o Fix(N(n), 8, hh.le) ELSE Fix(N(n), 4, hh.le)
 InitLenSz(hh) == IF hh.f64 THEN 12 ELSE 4
@@ -388,7 +437,11 @@ FileTabs == {
   [fmt |-> <<<<LNCT_path, F_line_strp>>, <<LNCT_directory_index, F_udata>>, <<LNCT_size, F_data4>>, <<LNCT_LLVM_source, F_line_strp>>>>,
    es |-> << <<VStr(S_a), N(0), N(6), VStr(S_src)>>, <<VStr(S_b), N(1), W(<<0, 0, 0, 128>>), VStr(S_src)>> >>]
 }
+\* 130 directories: the count is a ULEB128 of two bytes
+ManyDirs == [i \in 1..130 |-> <<VStr(<<97 + (i % 26), 48 + (i % 10)>>)>>]
 Tabs5 == {T5(df, DirsFor(df), ft.fmt, ft.es) : df \in DirFmts, ft \in FileTabs}
+         \cup {T5(<<<<LNCT_path, F_string>>>>, ManyDirs, <<<<LNCT_path, F_string>>, <<LNCT_directory_index, F_data1>>>>,
+                  << <<VStr(S_a), N(129)>> >>)}
 
 \* the header parameter records against which the table variants are written
 TabHeaders4 == {H1, H2, H3, H6}
@@ -602,12 +655,54 @@ ReadDirs(bs, pos, acc) == LET s == CStrAt(bs, pos) IN
 RECURSIVE ReadFiles(_, _, _)
 ReadFiles(bs, pos, acc) == LET s == CStrAt(bs, pos) IN
                            IF s.s = <<>> THEN [v |-> acc, next |-> pos + 1]
-                           ELSE LET us == UlebsAt(bs, pos + s.used, 3, <<>>) IN
+                           ELSE LET us == UlebsAt(bs, pos + s.used, 3, <<>>, FALSE) IN
                                 ReadFiles(bs, us.next, Append(acc, F4(s.s, us.vals[1], us.vals[2], us.vals[3])))
+\* v5 entry-format tables re-read from the bytes: format pairs, then entries field by field by form
+FormWidth(form) == CASE form = F_data1 -> 1 [] form = F_data2 -> 2 [] form = F_data4 -> 4 [] form = F_data8 -> 8 [] OTHER -> 0
+DecVal(hh, bs, pos, form) ==
+  CASE form = F_string -> LET c == CStrAt(bs, pos) IN [v |-> VStr(c.s), next |-> pos + c.used]
+    [] form = F_line_strp -> LET off == SmallDec(Slice(bs, pos + 1, OSz(hh)), hh.le, FALSE) IN
+                             [v |-> VStr(CStrAt(PoolBytes(LineStrPool), off).s), next |-> pos + OSz(hh)]
+    [] form = F_strp -> LET off == SmallDec(Slice(bs, pos + 1, OSz(hh)), hh.le, FALSE) IN
+                        [v |-> VStr(CStrAt(PoolBytes(StrPool), off).s), next |-> pos + OSz(hh)]
+    [] form = F_udata -> LET u == UlebAt(bs, pos) IN [v |-> N(u.v), next |-> pos + u.used]
+    [] form = F_data16 -> [v |-> VBlob(Slice(bs, pos + 1, 16)), next |-> pos + 16]
+    [] form = F_block -> LET u == UlebAt(bs, pos) IN [v |-> VBlob(Slice(bs, pos + u.used + 1, u.v)), next |-> pos + u.used + u.v]
+    [] OTHER -> LET w == FormWidth(form) IN [v |-> FixDec(Slice(bs, pos + 1, w), hh.le, FALSE), next |-> pos + w]
+\* written value = re-read value (fixed-width numbers are compared by their digits)
+ValEq(form, a, b) == IF FormWidth(form) > 0 THEN Digits(a, FormWidth(form)) = b.d ELSE a = b
+RECURSIVE ReadFmt(_, _, _, _)
+ReadFmt(bs, pos, n, acc) == IF n = 0 THEN [v |-> acc, next |-> pos]
+                            ELSE LET us == UlebsAt(bs, pos, 2, <<>>, FALSE) IN ReadFmt(bs, us.next, n - 1, Append(acc, us.vals))
+RECURSIVE ReadEntry(_, _, _, _, _, _)
+ReadEntry(hh, bs, pos, fmt, i, acc) == IF i > Len(fmt) THEN [v |-> acc, next |-> pos]
+                                       ELSE LET d == DecVal(hh, bs, pos, fmt[i][2]) IN
+                                            ReadEntry(hh, bs, d.next, fmt, i + 1, Append(acc, d.v))
+RECURSIVE ReadEntries(_, _, _, _, _, _)
+ReadEntries(hh, bs, pos, fmt, n, acc) == IF n = 0 THEN [v |-> acc, next |-> pos]
+                                         ELSE LET e == ReadEntry(hh, bs, pos, fmt, 1, <<>>)   acc2 == Append(acc, e.v) IN
+                                              IF e.next > pos /\ Len(acc2) > 0           \* forces evaluation (see RunFrom)
+                                              THEN ReadEntries(hh, bs, e.next, fmt, n - 1, acc2)
+                                              ELSE [v |-> acc, next |-> -1]
+ReadTable5(hh, bs, pos) ==
+  LET f == ReadFmt(bs, pos + 1, bs[pos + 1], <<>>)
+      c == UlebAt(bs, f.next)
+      es == ReadEntries(hh, bs, f.next + c.used, f.v, c.v, <<>>)
+  IN [fmt |-> f.v, es |-> es.v, next |-> es.next]
+EntriesEq(fmt, a, b) == /\ Len(a) = Len(b)
+                        /\ \A i \in 1..Len(a) : \A j \in 1..Len(fmt) : ValEq(fmt[j][2], a[i][j], b[i][j])
+
 TablesRoundTrip ==
-  h.v <= 4 => LET bs == TabEnc(h, tabs)
-                  d == ReadDirs(bs, 0, <<>>)
-                  f == ReadFiles(bs, d.next, <<>>)
-              IN d.v = tabs.dirs /\ f.v = tabs.files /\ f.next = Len(bs)
+  IF h.v <= 4
+  THEN LET bs == TabEnc(h, tabs)
+           d == ReadDirs(bs, 0, <<>>)
+           f == ReadFiles(bs, d.next, <<>>)
+       IN d.v = tabs.dirs /\ f.v = tabs.files /\ f.next = Len(bs)
+  ELSE LET bs == TabEnc(h, tabs)
+           d == ReadTable5(h, bs, 0)
+           f == ReadTable5(h, bs, d.next)
+       IN /\ d.fmt = tabs.dfmt /\ EntriesEq(tabs.dfmt, tabs.dirs, d.es)
+          /\ f.fmt = tabs.ffmt /\ EntriesEq(tabs.ffmt, tabs.files, f.es)
+          /\ f.next = Len(bs)
 
 =============================================================================
